@@ -170,6 +170,21 @@ CHECKS["C18"] = dict(
     note="Lawful Ord/PartialOrd assumed; hex::decode/encode summarised by their contract; real digest lengths (32/64 bytes) exceed what the string "
          "solver decides in time (scaled-down lengths stated); Inventory<->TOML round trip not covered yet. " + BASE_NOTE)
 
+CHECKS["C17"] = dict(
+    text="Bounded model checking from MIR of the argument assembly `From<DockerRunCommand> for Command` (with mount_csv_field), "
+         "`From<DockerExecCommand> for Command` and `From<PackBuildCommand> for Command`: every user-supplied string (entrypoint, platform, "
+         "env names/values, bind-mount paths, command words, builder, app path, buildpack references) is an unbounded SMT string, ports are "
+         "SMT integers; optional entrypoint/platform, 0..2 env pairs in both key orders and with colliding keys, 0..2 ports, 0..2 command words, "
+         "bind mounts (1 quick / <= 2 thorough) next to a reduced option set, 0..2 buildpack references of either kind. The produced argv is "
+         "parsed back on the same path by reference parsers of docker's and pack's option grammars (spec/cli.py, incl. Go encoding/csv for "
+         "--mount) and the solver decides that the parse equals the configuration (each pair/port/mount once, buildpacks in order, values "
+         "only in value positions). The mapping BuildConfig/ContainerConfig -> command structs (TestRunner::build_internal, "
+         "TestContext::start_container), the app-dir copy and the preprocessor are NOT covered by this check.",
+    design_ref="DESIGN.md §5 C17",
+    technique="symbolic execution of rustc MIR (mirsym) with SMT strings + z3; oracle = symbolic reference parser of the docker/pack command-line grammar; witness replay against the real From impls",
+    note="Assumed: env names non-empty without '=', no NUL, no CR in mount paths, generated container/image names. The command structs are "
+         "pub(crate): the replay driver compiles /repo's docker.rs and pack.rs via #[path]. " + BASE_NOTE)
+
 NOT_YET = "check not built yet in this round (see DESIGN.md §9 build order); no claim is made"
 NOT_APPLICABLE = {}
 ALL = [f"C{i:02d}" for i in range(1, 21)]
